@@ -357,7 +357,16 @@ def run_case(case, t: Tally, verbose=False):
         print("  %s %s\n  headers=%r\n  -> %r" % (case["method"], uri, headers, obs))
     valid = case["cred"] in CRED_VALID
     unsafe = case["method"] not in SAFE
-    feats = {"route": case["handler"], "method": case["method"], "cred": case["cred"], "xsrf": case["xsrf"], "sfs": case["sfs"], "pw": pw}
+    if status is None:
+        result = "no-response"
+    elif status >= 500:
+        result = "refused-5xx" if not changed else "processed"
+    elif status >= 400:
+        result = "refused-4xx" if not changed else "processed"
+    else:
+        result = "processed"
+    feats = {"route": case["handler"], "method": case["method"], "method_class": "unsafe" if unsafe else "safe", "cred": case["cred"],
+             "xsrf": case["xsrf"], "sfs": case["sfs"], "pw": pw, "result": result}
     is_ws = case["handler"] == "ClientConnection" and case["method"] == "GET"
     t.outcome([case["handler"], case["method"], valid, case["xsrf"] in XSRF_VALID, case["sfs"], status, bool(changed)])
 
@@ -417,16 +426,23 @@ def gen_cases(thorough):
             for cred in CRED_INVALID:
                 if thorough:
                     pairs = [(x, s) for x in XSRF_KINDS for s in SFS]
-                else:
+                elif cred in ("none", "cookie-bad-signature", "bearer-wrong"):
                     # credentials x route x method in full; XSRF and fetch-site at their extremes
                     pairs = [("absent", "absent"), ("valid-header", "absent"), ("valid-header", "same-origin"), ("valid-header", "cross-site"), ("absent", "cross-site")]
+                else:
+                    pairs = [("absent", "absent"), ("valid-header", "absent")]
                 for xs, sfs in pairs:
                     add(url, handler, method, cred, xs, sfs)
             for cred in CRED_VALID:
                 for xs in XSRF_KINDS:
                     for sfs in SFS:
-                        if method in SAFE and not thorough and (xs, sfs) not in (("absent", "absent"), ("valid-header", "cross-site")):
-                            continue
+                        if not thorough:
+                            if method in SAFE and (xs, sfs) not in (("absent", "absent"), ("valid-header", "cross-site")):
+                                continue
+                            # the full xsrf x fetch-site product with one credential form; the other two at the extremes
+                            if cred != "bearer-valid" and (xs, sfs) not in (("absent", "absent"), ("mismatch", "absent"), ("valid-header", "absent"),
+                                                                             ("valid-header", "cross-site"), ("valid-argument", "same-origin"), ("absent", "cross-site")):
+                                continue
                         add(url, handler, method, cred, xs, sfs)
     # password modes: configured plaintext password and argon2 hash (verification is slow: a slice of the product)
     slice_routes = [(u, h) for u, h in rts if h in ("Flows", "ClearAll", "FlowHandler", "ClientConnection", "IndexHandler")]
@@ -460,8 +476,9 @@ def run(ctx):
             "routes": len(app.handlers), "urls": len(rts), "methods": METHODS,
             "credentials_invalid": CRED_INVALID + ["hash-as-password (argon2 mode)"], "credentials_valid": CRED_VALID,
             "xsrf": XSRF_KINDS, "sec_fetch_site": SFS, "password_modes": ["random token", "web_password plaintext", "web_password argon2 hash"],
-            "product": "invalid credentials x url x method x %s; valid credentials x url x unsafe method x all xsrf x all fetch-site" % (
-                "all xsrf x all fetch-site" if thorough else "5 (xsrf, fetch-site) extremes"),
+            "product": ("full: credentials x url x method x all xsrf x all fetch-site" if thorough else
+                        "invalid credentials x url x method x 2 (xsrf, fetch-site) pairs (5 pairs for none / bad cookie signature / wrong bearer); "
+                        "valid bearer x url x unsafe method x all xsrf x all fetch-site; valid token and cookie x url x method x 6 pairs"),
             "cases": len(cases),
         }
         ctx.log("%d cases over %d urls (%d routes)" % (len(cases), len(rts), len(app.handlers)))
